@@ -232,7 +232,7 @@ def run_greenlet_case(sh, case):
   src, req, npairs = gen_greenlet_design(rng)
   mod = G.load_source(src, "c02g")
   try:
-    for mode in ("default", "simple", "mamba"):
+    for mode in ("default", "simple", "mamba", "heutopo", "unroll"):
       top = mod.GTop()
       try:
         simmon.apply_mode(top, mode, rng)
